@@ -49,6 +49,9 @@ def tb(e):
 # --------------------------------------------------------------------------
 # part A
 # --------------------------------------------------------------------------
+STAT = {}
+
+
 def implicit_default(kind, sub, dflt):
     """The value a field takes when nothing is given (declared default, else zero) or None if there is none."""
     if dflt is not None:
@@ -84,7 +87,14 @@ def value_with_defaults(spec, vg, rng, p_default, marks, path=""):
             if None in sub[1] and rng.random() < 0.2:
                 shape = [0 if d is None else d for d in _dims(sub[1])]
             mv[xn] = vg.array(sub[0], sub[1], shape)
-            if d is not None and mv[xn].size > 1 and rng.random() < 0.4:
+            if d is not None and None in sub[1] and d.size and (d == d.flat[0]).all() and rng.random() < 0.5:
+                # the items of the default, in another number: equal to the default only under numpy broadcasting
+                shp2 = [rng.choice([x for x in (1, 2, 4, 5) if x != have]) if dd is None else dd
+                        for dd, have in zip(_dims(sub[1]), d.shape)]
+                mv[xn] = np.full(shp2, d.flat[0], dtype=d.dtype)
+                marks.append(path + xn + "(default items, other length)")
+                STAT["default_items_other_length"] = STAT.get("default_items_other_length", 0) + 1
+            if d is not None and mv[xn].shape == d.shape and mv[xn].size > 1 and rng.random() < 0.4:
                 # equal to the default in SOME positions only (still not the default)
                 mask = np.array([rng.random() < 0.5 for _ in range(mv[xn].size)]).reshape(mv[xn].shape)
                 if mask.any() and not mask.all():
@@ -100,6 +110,9 @@ def run_hybrid(w, rng):
     env = Env(rng, ctx=ctxs()[0], kind="numpy", neighbours=rng.choice([0, 2]))
     marks = []
     mv = value_with_defaults(outer, vg, rng, rng.choice([0.0, 0.3, 0.6, 1.0]), marks)
+    for k_, v_ in STAT.items():
+        w.count(k_, v_)
+    STAT.clear()
     table = {}
     info = dict(family=[(s["name"], spec_sig(s)) for s in specs], at_default=marks, placement=env.placement())
     seen = set()
